@@ -11,9 +11,7 @@ import common as C
 def coq_eval_cases(prop, tag, imports, case_type, check_fn, terms, shard=1000, chunk=50, timeout=600):
     d = os.path.join(C.WORK, prop)
     os.makedirs(d, exist_ok=True)
-    for f in os.listdir(d):
-        if f.startswith(tag + "_"):
-            os.remove(os.path.join(d, f))
+    tag = "%s_p%d" % (tag, os.getpid())   # two concurrent runs of one property must not overwrite each other's shards
     paths = []
     for si in range(0, len(terms), shard):
         part = terms[si:si + shard]
